@@ -14,9 +14,10 @@ PROP = "C04"
 def cases(tier):
     quick = tier == "quick"
     out = []
-    for base in ("flat6", "mat23"):
+    for base in ("flat6", "mat23", "mat23F", "mat32F"):
         progs = []
-        for h in ((1, 2, 3) if quick else (1, 2, 3)):
+        fo = base in vp.F_ORDERED
+        for h in ((1, 2) if (fo and quick) else (1, 2, 3)):
             progs += vp.programs(base, h, quick=quick or h == 3, require_inplace=True)
         if not quick:
             # h = 4 with at least two in-place statements, reduced templates
@@ -34,7 +35,7 @@ def run_program(mg, base, lines, res, check_each=True):
     shape = vp.BASES[base]
 
     def body():
-        S = vp.Setup(shape, mg)
+        S = vp.Setup(shape, mg, f_ordered=base in vp.F_ORDERED)
         envT, envA = S.env_mg(), S.env_np()
         ids = {"t": id(envT["t"])}
         consts = {"t": envT["t"].constant}
@@ -66,7 +67,7 @@ def run_program(mg, base, lines, res, check_each=True):
 
 
 def replay_source(base, lines):
-    shape = vp.BASES[base]
+    shape = tuple(vp.BASES[base])
     return '''import sys
 import numpy as np
 import mygrad as mg
@@ -77,9 +78,9 @@ def ultimate(a):
     while a.base is not None: a = a.base
     return a
 rng = np.random.RandomState(1)
-t0 = rng.rand(*%r) + 0.5; yv0 = rng.rand(%d) + 0.5; y20 = rng.rand(2) + 0.5
+t0 = (rng.rand(*%r[::-1]) + 0.5).T if %r else rng.rand(*%r) + 0.5; yv0 = rng.rand(%d) + 0.5; y20 = rng.rand(2) + 0.5
 T = {"mg": mg, "np": np, "t": mg.Tensor(t0), "y0": mg.Tensor(1.25), "yv": mg.Tensor(yv0), "y2": mg.Tensor(y20), "k": np.array(0.75), "c1": np.array(2.5), "c2": np.array(1.5)}
-A = {"np": np, "t": t0.copy(), "y0": np.array(1.25), "yv": yv0.copy(), "y2": y20.copy(), "k": np.array(0.75), "c1": np.array(2.5), "c2": np.array(1.5)}
+A = {"np": np, "t": t0.copy(order="K"), "y0": np.array(1.25), "yv": yv0.copy(), "y2": y20.copy(), "k": np.array(0.75), "c1": np.array(2.5), "c2": np.array(1.5)}
 LINES = %r
 NAMES = ("t", "v", "w", "u")
 ids = {}; consts = {}; bad = []
@@ -90,8 +91,8 @@ def tgt(line):
     return h
 try:
     for i, ln in enumerate(LINES):
-        if "Mt" in ln:
-            A["Mt"] = T["Mt"] = mask_for(A[tgt(ln)].shape)
+        if "Mt" in ln or "Mb" in ln:
+            A["Mt"] = T["Mt"] = mask_for(A[tgt(ln)].shape); A["Mb"] = T["Mb"] = mask_for(A[tgt(ln)].shape[-1:])
         exec(ln.replace("mg.", "np."), A)
         for n in NAMES:
             if n in A and not isinstance(A[n], np.ndarray): A[n] = np.array(A[n])  # NumPy scalar <-> 0-d tensor
@@ -116,7 +117,7 @@ except Exception as e:
     bad.append(("raised", type(e).__name__, str(e)[:300]))
 print(bad)
 print('REPRODUCED' if bad else 'NOT-REPRODUCED'); sys.exit(1 if bad else 0)
-''' % (shape, shape[-1], list(lines))
+''' % (shape, base in vp.F_ORDERED, shape, shape[-1], list(lines))
 
 
 def run_case(spec, tier):
